@@ -63,7 +63,7 @@ def rule_M1(ctx: Ctx) -> None:
             slot["compared_with"] = X.U(o)
             slot["its_definitions"] = [X.U(d) for d in defs]
             total_forms = ("int(np.prod(grid_shape))", "np.prod(grid_shape)", "grid_shape[0] * grid_shape[1]", "int(grid_shape[0] * grid_shape[1])", "math.prod(grid_shape)")
-            ok = len(defs) == 1 and X.U(defs[0]) in total_forms
+            ok = len(defs) == 1 and X.same_expr(defs[0], *total_forms)
             if not ok and defs:
                 ok = False
     elif isinstance(inner, ast.Constant):
